@@ -38,6 +38,30 @@ func init() {
 			}
 			return x.callFn(m, []Value{it.V, Slice{A: arr, Len: len(out.B), Cap: len(out.B)}}, nil, fr)
 		},
+		// encoding/gob is reflection driven and not encoded. Contract stubs for the encoder
+		// side only: NewEncoder remembers its writer, Encode reads its argument (it never
+		// writes it) and hands one opaque byte per call to the writer, returning nil or an
+		// error (free choice). The bytes are not decodable: NewDecoder stays unsupported.
+		"encoding/gob.NewEncoder": func(x *Exec, fr *frame, fn *ssa.Function, a []Value) Value {
+			x.side["gob-writer"] = a[0]
+			cell := new(Value)
+			*cell = StructV{}
+			return Ptr{C: cell}
+		},
+		"(*encoding/gob.Encoder).Encode": func(x *Exec, fr *frame, fn *ssa.Function, a []Value) Value {
+			if x.pick("gob-encode-error", 2) == 1 {
+				return x.newError("gob: encode error (stub)")
+			}
+			if w, ok := x.side["gob-writer"]; ok {
+				it := x.asIface(w)
+				if m := x.eng.lookupMethodByName(it.T, "Write"); m != nil && it.T != nil {
+					arr := x.newArr(1)
+					arr.E[0] = x.ts.BV(8, 0x2a)
+					x.callFn(m, []Value{it.V, Slice{A: arr, Len: 1, Cap: 1}}, nil, fr)
+				}
+			}
+			return Iface{}
+		},
 		"fmt.Sprint": func(x *Exec, fr *frame, fn *ssa.Function, a []Value) Value {
 			args := sliceVals(a[0])
 			var out []*Term
